@@ -47,7 +47,7 @@ m = {
    "guard": "verif (Go build tag)",
    "enable": "go1.26.8 test -c -tags verif (the harness module /verif/sim replaces github.com/fiorix/go-diameter/v4 with /repo)",
    "baseline_off_cmd": "/verif/baseline_off.sh",
-   "source_commits": ["4847e4d", "e138ec1"],
+   "source_commits": ["4847e4d", "e138ec1", "10f079b"],
    "add_only": True,
  },
  "engines": [{"name": "dsim", "path": "/verif/sim", "serves_properties": sorted(claimed), "kind_free_text": "deterministic simulator: seeded choice tape, in-memory net.Conn/net.Listener/SCTP backend, synctest fake clock, scripted peers, history oracles, tape shrinking and replay"}],
